@@ -81,7 +81,7 @@ def check_counts(ctx, spec, start, N, part="count", refusals=(NotImplementedErro
         for params in start.possible_parameters(n):
             key = tuple(params[k] for k in names)
             try:
-                c = spec.count_objects_of_size(n, **params)
+                c = spec.count_objects_of_size(n, **any_order(params, n))
             except Exception as e:
                 ctx.fail(part + "-raises", f"count_objects_of_size({n}, {params}) raised {describe_exc(e)}", f"{part}-raises/{type(e).__name__}")
                 return False
@@ -143,6 +143,12 @@ def peel(rule):
         chain.append(r)
         r = r.original_rule
     return r, chain
+
+
+def any_order(params, n):
+    """Keyword arguments in another order (the order of keyword arguments means nothing):
+    reversed for odd n."""
+    return dict(reversed(list(params.items()))) if n % 2 else dict(params)
 
 
 def expected_shifts(rule):
